@@ -2,6 +2,9 @@ import MidnightZK.Proofs.C13.Tower
 import MidnightZK.Proofs.C13.Engine
 import MidnightZK.Proofs.C13.Consts
 import MidnightZK.Proofs.C13.Steps
+import MidnightZK.Proofs.C13.Frob
+import MidnightZK.Proofs.C13.Cyclotomic
+import MidnightZK.Proofs.C13.Group
 /-!
 # C13 — the pairing is bilinear, non-degenerate and consistent across entry points
 
@@ -139,6 +142,78 @@ theorem multi_miller_loop_append (E : MillerEngine G1 G2 M GT) (l₁ l₂ : List
   rw [map_mul, multi_pairing_product, multi_pairing_product, multi_pairing_product]
   simp [pairingProduct]
 
+/-! ## Identity entries, prepared points, unprepared entry points -/
+
+omit [AddCommGroup G1] [AddCommGroup G2] [CommGroup GT] [DecidableEq G1] [DecidableEq G2] in
+/-- **Identity entries are skipped, at every position, already at the level of Miller values** (no
+hypothesis on the pairing): a pair with an identity anywhere in the list does not change the result of
+`bls12_381/mod.rs: multi_miller_loop`, and the loop equals the product of the Miller values of the
+list filtered as `bn256/engine.rs: multi_miller_loop` filters it — both engines follow the same
+control flow. (An index slip such as "skip the pair after an identity pair" contradicts the first
+statement.) -/
+theorem multi_miller_loop_identity_skip (isIdP : G1 → Bool) (isIdQ : G2 → Bool) (miller : G1 → G2 → M)
+    (l₁ l₂ : List (G1 × G2)) (p : G1) (q : G2) (h : (isIdP p || isIdQ q) = true) :
+    multiMillerLoopBls isIdP isIdQ miller (l₁ ++ (p, q) :: l₂) = multiMillerLoopBls isIdP isIdQ miller (l₁ ++ l₂)
+    ∧ ∀ terms : List (G1 × G2), multiMillerLoopBls isIdP isIdQ miller terms
+        = ((filterIdentityTerms isIdP isIdQ terms).map (fun t => miller t.1 t.2)).prod := by
+  constructor
+  · simp only [multiMillerLoopBls_eq_prod, List.map_append, List.map_cons, List.prod_append, List.prod_cons]
+    simp [mmlTerm, h]
+  · intro terms
+    rw [multiMillerLoopBls_eq_prod]
+    unfold filterIdentityTerms
+    induction terms with
+    | nil => simp
+    | cons t ts ih =>
+      rw [List.map_cons, List.prod_cons, ih, List.filter_cons]
+      cases ht : (isIdP t.1 || isIdQ t.2)
+      · simp only [mmlTerm, ht, Bool.not_false, if_true, List.map_cons, List.prod_cons]
+        simp
+      · simp only [mmlTerm, ht, Bool.not_true, if_true, one_mul]
+        simp
+
+/-- **Prepared points** (`g2.rs: From<G2Affine> for G2Prepared`, `G2Prepared::is_identity`,
+`mod.rs: multi_miller_loop` on `(&G1Affine, &G2Prepared)`): preparing the identity sets the flag and
+stores no lines; the loop tests the flag; so for every list — identities at any position — the
+prepared loop, finally exponentiated, is the product of the pairings, provided
+`blst_miller_loop_lines` on the lines of a non-identity point is the Miller function (hypothesis
+`hlines`: blst, specified, compared on every run). -/
+theorem multi_pairing_product_prepared {L : Type} (E : MillerEngine G1 G2 M GT)
+    (precompute : G2 → List L) (millerLines : G1 → List L → M)
+    (hlines : ∀ P Q, P ≠ 0 → Q ≠ 0 → millerLines P (precompute Q) = E.miller P Q)
+    (terms : List (G1 × G2)) :
+    E.finalExp (multiMillerLoopPrepared (fun P => decide (P = 0)) millerLines
+        (terms.map (fun t => (t.1, g2Prepare (fun Q => decide (Q = 0)) precompute t.2))))
+      = pairingProduct E.toPairing terms
+    ∧ (g2Prepare (fun Q : G2 => decide (Q = 0)) precompute 0).isIdentity = true
+    ∧ (g2Prepare (fun Q : G2 => decide (Q = 0)) precompute 0).lines = [] := by
+  refine ⟨?_, by simp [g2Prepare_isIdentity], by simp [g2Prepare_lines]⟩
+  rw [multiMillerLoopPrepared_eq (fun P => decide (P = 0)) (fun Q => decide (Q = 0)) precompute millerLines E.miller
+    (fun p q hp hq => hlines p q (by simpa using hp) (by simpa using hq))]
+  exact multi_pairing_product E terms
+
+/-- **Unprepared entry points.** `bls_pairing.rs: pairing(p, q)` calls `blst_miller_loop` without testing
+for identities; if blst's loop agrees with the line-based one on non-identity points and reduces to
+one when a point is the identity (hypotheses about blst, compared on every run incl. identities),
+`pairing(p, q)` equals the prepared one-element loop and `e(p, q)`. For BN254 `Engine::pairing` *is*
+the one-element `multi_miller_loop` followed by `final_exponentiation` (`rfl`). -/
+theorem pairing_entry_consistent (E : MillerEngine G1 G2 M GT) (millerRaw : G1 → G2 → M)
+    (hraw : ∀ P Q, P ≠ 0 → Q ≠ 0 → millerRaw P Q = E.miller P Q)
+    (hid : ∀ P Q, P = 0 ∨ Q = 0 → E.finalExp (millerRaw P Q) = 1) (P : G1) (Q : G2) :
+    pairingEntry millerRaw E.finalExp P Q
+        = E.finalExp (multiMillerLoopBls (fun P => decide (P = 0)) (fun Q => decide (Q = 0)) E.miller [(P, Q)])
+    ∧ pairingEntry millerRaw E.finalExp P Q = E.e P Q
+    ∧ ∀ (mml : List (G1 × G2) → M), pairingEntryBn mml E.finalExp P Q = E.finalExp (mml [(P, Q)]) := by
+  have h : pairingEntry millerRaw E.finalExp P Q = E.e P Q := by
+    unfold pairingEntry
+    by_cases hP : P = 0
+    · rw [hid P Q (Or.inl hP), hP, E.toPairing.zero_left]
+    · by_cases hQ : Q = 0
+      · rw [hid P Q (Or.inr hQ), hQ, E.toPairing.zero_right]
+      · rw [hraw P Q hP hQ, E.finalExp_miller P Q hP hQ]
+  refine ⟨?_, h, fun _ => rfl⟩
+  rw [h, multi_pairing_product]; simp [pairingProduct]
+
 /-! ## The final pairing check of the dual MSM -/
 
 variable {S : Type} [CommRing S] [DecidableEq S] [Module S G1] [DecidableEq GT]
@@ -191,6 +266,35 @@ checks, `ξ^((pⁱ−1)/k)` of the constant theorems, `f^((p¹²−1)/r)` of the
 is the power `x ^ e`, in every monoid and for every exponent. -/
 theorem pow_bits_spec {γ : Type} [Monoid γ] (x : γ) (e : Nat) : powBits (· * ·) 1 x e = x ^ e :=
   powBits_eq_pow x e
+
+/-- **The order-`r` subgroup is closed under the `Gt` operators** (`gt.rs`: `+` is the `Fp12` product,
+`* scalar` a power, `identity` is one, `Sum` folds `+` from the identity): in any commutative monoid,
+`{x | x^r = 1}` contains one and is closed under products, powers and finite sums-as-products, and on
+it the scalar only matters modulo `r` (so `Gt * Fq` is well defined on field elements). -/
+theorem gt_subgroup_closed {γ : Type} [CommMonoid γ] (r : ℕ) (x y : γ) (hx : x ^ r = 1) (hy : y ^ r = 1)
+    (k : ℕ) (l : List γ) (hl : ∀ z ∈ l, z ^ r = 1) :
+    (1 : γ) ^ r = 1 ∧ (x * y) ^ r = 1 ∧ (x ^ k) ^ r = 1 ∧ x ^ k = x ^ (k % r)
+    ∧ gtSum l = l.prod ∧ (gtSum l) ^ r = 1 := by
+  obtain ⟨h1, h2, h3⟩ := pow_order_closed r x y hx hy k
+  refine ⟨h1, h2, h3, pow_mod_order r x hx k, gtSum_eq_prod l, ?_⟩
+  rw [gtSum_eq_prod]
+  induction l with
+  | nil => simp
+  | cons z zs ih =>
+    rw [List.prod_cons, mul_pow, hl z (by simp), one_mul]
+    exact ih (fun w hw => hl w (by simp [hw]))
+
+/-- Non-vacuity: in `Multiplicative (ZMod 3)` every element has order dividing 3. -/
+example : (Multiplicative.ofAdd (2 : ZMod 3)) ^ 3 = 1 := by decide
+
+/-- **The final exponentiation lands in the order-`r` subgroup**: `f ↦ f^(N/r)` with `r ∣ N` maps every
+`f` with `f^N = 1` (every non-zero element of `Fp12`, `N = p¹² − 1`; `r ∣ N` is `bn_parameters` /
+`bls_parameters`) to an element of order dividing `r`. (blst's BLS12-381 exponent is `3·N/r`; `3 ∤ r`.) -/
+theorem final_exp_in_subgroup {γ : Type} [CommMonoid γ] (N r : ℕ) (hr : r ∣ N) (f : γ) (hf : f ^ N = 1) :
+    (f ^ (N / r)) ^ r = 1 ∧ (f ^ (3 * (N / r))) ^ r = 1 := by
+  have h := final_exp_in_subgroup' N r hr f hf
+  refine ⟨h, ?_⟩
+  rw [mul_comm, pow_mul, ← pow_mul, mul_comm, pow_mul, h, one_pow]
 
 /-! ## The two steps of the BN254 Miller loop (`derive/pairing.rs: double, add`) -/
 section
@@ -322,6 +426,68 @@ example : (⟨1, 2⟩ : Quad ℤ) * ⟨3, 4⟩ = ⟨-5, 10⟩ := by
   rw [quad_mul_spec]; simp [xi, LawfulNonRes.xi]
 example : Quad.sqrComplex (⟨1, 2⟩ : Quad ℤ) = ⟨-3, 4⟩ := by decide
 
+/-! ## Frobenius maps, cyclotomic squaring, totality of `invert` -/
+section
+variable {α : Type} [CommRing α] [NonRes α] [LawfulNonRes α]
+
+/-- **`frobenius_map` is a ring endomorphism, level by level** (`fp2.rs / fp6.rs / fp12.rs / fq2.rs /
+fq6.rs / fq12.rs: frobenius_map`): the twisted coefficientwise maps `(c0, c1) ↦ (φc0, φc1·γ)` and
+`(c0, c1, c2) ↦ (φc0, φc1·γ₁, φc2·γ₂)` preserve `0, 1, +, ·` when `φ` does and `γ²ξ = φ(ξ)` resp.
+`γ₁³ξ = φ(ξ)`, `γ₂ = γ₁²`; conjugation (the BN254 `Fq2` map for odd powers) always does; the
+BLS12-381 `Fp2` map `(c0, c1·γ)` is the first shape with `φ = id`, `γ² = 1`; hence the model's `frobenius_map(k)` of the cubic and of the degree-12 level
+are ring endomorphisms when the `Fp2` map is one and the three tables satisfy
+`C1[k%6]³ξ = frob_k(ξ)`, `C2[k%6] = C1[k%6]²`, `C12[k%12]² = C1[k%6]`
+(kernel-checked on the parsed tables for every `k < 12`: `frobenius_table_relations`). -/
+theorem frobenius_ring_hom :
+    (∀ (φ : α → α) (γ : α), RingEndo φ → γ * γ * xi = φ xi → RingEndo (Quad.frobWith φ γ))
+    ∧ RingEndo (Quad.conj : Quad α → Quad α)
+    ∧ (∀ (φ : α → α) (γ₁ γ₂ : α), RingEndo φ → γ₁ * γ₁ * γ₁ * xi = φ xi → γ₂ = γ₁ * γ₁
+        → RingEndo (Cubic.frobWith φ γ₁ γ₂))
+    ∧ (∀ [Frob α] [FrobCoeffs α] (k : Nat), RingEndo (Frob.frob k : α → α)
+        → FrobCoeffs.c6c1 (k % 6) * FrobCoeffs.c6c1 (k % 6) * FrobCoeffs.c6c1 (k % 6) * (xi : α) = Frob.frob k (xi : α)
+        → (FrobCoeffs.c6c2 (k % 6) : α) = FrobCoeffs.c6c1 (k % 6) * FrobCoeffs.c6c1 (k % 6)
+        → (FrobCoeffs.c12c1 (k % 12) : α) * FrobCoeffs.c12c1 (k % 12) = FrobCoeffs.c6c1 (k % 6)
+        → RingEndo (Frob.frob k : Cubic α → Cubic α) ∧ RingEndo (Frob.frob k : Tower12 α → Tower12 α)) :=
+  ⟨fun _ γ hφ hγ => Quad.frobWith_ringEndo hφ γ hγ, Quad.conj_ringEndo,
+   fun _ γ₁ γ₂ hφ h1 h2 => Cubic.frobWith_ringEndo hφ γ₁ γ₂ h1 h2,
+   fun k hφ h1 h2 h3 => ⟨Cubic.frob_ringEndo k hφ h1 h2, Tower12.frob_ringEndo k hφ h1 h2 h3⟩⟩
+
+/-- **`cyclotomic_square` = `square` on the cyclotomic subgroup** (`tower.rs: impl_cyclotomic_square!`,
+used by `exp_by_x` of the BN254 final exponentiation after the easy part): for `ω` with
+`ω² − ω + 1 = 0` (a primitive sixth root of unity; `ω = ξ^((p²−1)/6) = C12[2]`) and every `f` with
+`f · σ²(f) = σ(f)` where `σ = twistScale ω` multiplies the coefficient of `wʲ` by `ωʲ` — the `p²`-power
+Frobenius, so the hypothesis reads `f^(p⁴)·f = f^(p²)`, i.e. `f ∈ G_{Φ₁₂(p)}` — the Granger–Scott
+formula returns `f·f`. The model's `frobenius_map(k)` is `twistScale ω` when the `Fp2` map is the
+identity and the tables hold `ω, ω², ω⁴` at `k` (kernel-checked for `k = 2, 4`:
+`cyclotomic_table_constants`). -/
+theorem cyclotomic_square_spec (ω : α) (hω : ω * ω - ω + 1 = 0) (f : Tower12 α)
+    (hf : f * twistScale (ω * ω) f = twistScale ω f) :
+    cyclotomicSquare f = f * f
+    ∧ (∀ [Frob α] [FrobCoeffs α] (k : Nat), (∀ x : α, Frob.frob k x = x) → FrobCoeffs.c12c1 (k % 12) = ω
+        → FrobCoeffs.c6c1 (k % 6) = ω ^ 2 → FrobCoeffs.c6c2 (k % 6) = ω ^ 4
+        → ∀ g : Tower12 α, Frob.frob k g = twistScale ω g) :=
+  ⟨cyclotomicSquare_eq ω hω f hf, fun k hid h12 h1 h2 g => Tower12.frob_eq_twistScale k ω hid h12 h1 h2 g⟩
+
+end
+
+/-- Non-vacuity of `cyclotomic_square_spec`: in `ZMod 7` (with `ξ = 3`), `ω = 3` is a primitive sixth root
+of unity (`9 − 3 + 1 = 7`), and `f = 1` satisfies the membership hypothesis. -/
+instance : NonRes (ZMod 7) := ⟨fun a => 3 * a⟩
+instance : LawfulNonRes (ZMod 7) := ⟨3, fun _ => rfl⟩
+example : cyclotomicSquare (1 : Tower12 (ZMod 7)) = 1 * 1 :=
+  (cyclotomic_square_spec (3 : ZMod 7) (by decide) 1 (by decide)).1
+
+/-- **`invert` is `None` only at zero** (`quadratic.rs: Field::invert`, `CtOption` on the norm's
+inverse): over a field in which the non-residue is not a square (kernel-checked for both curves:
+`nonresidue_constants`), the norm `c0² − ξc1²` vanishes only at zero, so every non-zero element has the
+inverse given by `quad_inv_spec`. -/
+theorem quad_inv_total {α : Type} [Field α] [NonRes α] [LawfulNonRes α] (hns : ∀ x : α, x * x ≠ xi)
+    (a : Quad α) (ha : a ≠ 0) :
+    Quad.norm a ≠ 0 ∧ a * (⟨a.c0 * (Quad.norm a)⁻¹, a.c1 * -(Quad.norm a)⁻¹⟩ : Quad α) = 1 := by
+  have hn : Quad.norm a ≠ 0 := fun h => ha ((Quad.norm_eq_zero_iff hns a).1 h)
+  exact ⟨hn, Quad.mul_inv_of_norm a _ (mul_inv_cancel₀ hn)⟩
+
+
 /-! ## Constants parsed from the sources (re-generated on every run) -/
 open Consts Gen in
 /-- BN254: every Frobenius coefficient table entry equals `ξ^((pⁱ−1)/3)`, `ξ^((2pⁱ−2)/3)`,
@@ -396,5 +562,52 @@ theorem montgomery_forms_ok :
       && (blsFrob2C1.zip blsFrob2C1Mont).all (fun vm => vm.1 * 2 ^ 384 % blsP == vm.2 && vm.1 < blsP)
       && (blsGtGen.zip blsGtGenMont).all (fun vm => vm.1 * 2 ^ 384 % blsP == vm.2 && vm.1 < blsP) = true) :=
   ⟨bn_mont_ok, bls_mont_ok⟩
+
+open Consts Gen in
+/-- **Relations that make the Frobenius maps ring endomorphisms, on the parsed tables** (hypotheses of
+`frobenius_ring_hom`), both curves, every power `k < 12`: `C1[k%6]³·ξ = frob_k(ξ)`,
+`C2[k%6] = C1[k%6]²`, `C12[k%12]² = C1[k%6]`; `FROBENIUS_COEFF_FP2_C1[i]² = 1`; the index moduli of the
+`TABLE[power % N]` sites (parsed from the sources and used by the model's tables) are the table
+lengths. A wrong table entry, a wrong index modulus or a swapped table breaks this theorem. -/
+theorem frobenius_table_relations :
+    (List.range 12).all (fun k =>
+      let g1 : BnFq2 := FrobCoeffs.c6c1 (k % 6)
+      let g2 : BnFq2 := FrobCoeffs.c6c2 (k % 6)
+      let g12 : BnFq2 := FrobCoeffs.c12c1 (k % 12)
+      decide (g1 * g1 * g1 * bnXi = Frob.frob k bnXi) && decide (g2 = g1 * g1) && decide (g12 * g12 = g1)) = true
+    ∧ (List.range 12).all (fun k =>
+      let g1 : BlsFp2 := FrobCoeffs.c6c1 (k % 6)
+      let g2 : BlsFp2 := FrobCoeffs.c6c2 (k % 6)
+      let g12 : BlsFp2 := FrobCoeffs.c12c1 (k % 12)
+      decide (g1 * g1 * g1 * blsXi = Frob.frob k blsXi) && decide (g2 = g1 * g1) && decide (g12 * g12 = g1)) = true
+    ∧ blsFrob2C1.all (fun c => c * c % blsP == 1) = true
+    ∧ (bnFrobIdx = (6, 6, 12) ∧ blsFrobIdx = (2, 6, 6, 12)) :=
+  ⟨bn_frob_relations, bls_frob_relations, bls_frob2_relation, frob_index_moduli⟩
+
+open Consts Gen in
+/-- The `p²`/`p⁴` Frobenius tables are powers of one primitive sixth root of unity `ω = C12[2]`
+(`ω² − ω + 1 = 0`; `C1[2] = ω²`, `C2[2] = ω⁴`, `C12[4] = ω²`, `C1[4] = ω⁴`, `C2[4] = ω⁸`), both curves:
+the hypotheses of `cyclotomic_square_spec`. -/
+theorem cyclotomic_table_constants :
+    (let w : BnFq2 := FrobCoeffs.c12c1 2
+     decide (w * w - w + 1 = 0) && decide (FrobCoeffs.c6c1 2 = w * w) && decide (FrobCoeffs.c6c2 2 = w * w * (w * w))
+      && decide (FrobCoeffs.c12c1 4 = w * w) && decide (FrobCoeffs.c6c1 4 = w * w * (w * w))
+      && decide (FrobCoeffs.c6c2 4 = w * w * (w * w) * (w * w * (w * w)))) = true
+    ∧ (let w : BlsFp2 := FrobCoeffs.c12c1 2
+     decide (w * w - w + 1 = 0) && decide (FrobCoeffs.c6c1 2 = w * w) && decide (FrobCoeffs.c6c2 2 = w * w * (w * w))
+      && decide (FrobCoeffs.c12c1 4 = w * w) && decide (FrobCoeffs.c6c1 4 = w * w * (w * w))
+      && decide (FrobCoeffs.c6c2 4 = w * w * (w * w) * (w * w * (w * w)))) = true :=
+  cyclotomic_constants
+
+open Consts Gen in
+/-- The non-residues are non-residues (Euler's criterion evaluated on the parsed moduli): `p ≡ 3 (mod 4)`
+(`−1` is not a square in `Fp`), `ξ^((p²−1)/2) ≠ 1` and `ξ^((p²−1)/3) ≠ 1` in `Fp2` (`ξ` is neither a
+square nor a cube), both curves. -/
+theorem nonresidue_constants :
+    (bnP % 4 = 3 ∧ fq2Pow bnXi ((bnP ^ 2 - 1) / 2) ≠ 1 ∧ fq2Pow bnXi ((bnP ^ 2 - 1) / 3) ≠ 1
+      ∧ (bnP ^ 2 - 1) % 6 = 0)
+    ∧ (blsP % 4 = 3 ∧ fq2Pow blsXi ((blsP ^ 2 - 1) / 2) ≠ 1 ∧ fq2Pow blsXi ((blsP ^ 2 - 1) / 3) ≠ 1
+      ∧ (blsP ^ 2 - 1) % 6 = 0) :=
+  nonresidue_checks
 
 end MidnightZK.C13
